@@ -8,20 +8,31 @@ CONFIG = {
         "name": "attr", "modules": ["Model.Attr", "Model.AttrCheck"],
         "check": "check_case", "monitor": "monitor_case", "model_out": "model_out",
         "case_type": "case",
-        "ops_path": [],             # the input term is the op list itself
+        "ops_path": [1],            # the input term is (listener scripts, top-level calls)
         "n_quick": 1200, "n_thorough": 20000, "shard": 100,
     }],
-    "rule": "op lists of 3-33 calls on the real attribute.New service (real event.System, scripted modifier.Eval): "
+    "rule": "input = (listener scripts, top-level calls) on the real attribute.New service (real event.System, scripted "
+            "modifier.Eval). Top-level: op lists of 2-33 calls: "
             "AddTarget (1-3 units from the id pool {1,2,3}, late and duplicate registrations, id 4 never registered), "
             "SetHP / ModifyHPByAmount / ModifyHPByRatio (both ratio types and invalid ones, floors 0, 1, fractions and "
             "multiples of max HP, negative and huge floors), SetEnergy / ModifyEnergy / ModifyEnergyFixed, SetStance / "
             "ModifyStance, ModifySP (incl. int64 extremes); amounts half from boundary values (0, -0, exactly max, one ulp "
             "above/below, -max, 2*max, MaxFloat64, 5e-324) and half small round numbers whose sums hit the bounds exactly; "
             "per-call max HP / energy regen for the target and different ones for every other unit, one stance bonus for all "
-            "units (whose bonus scales ModifyStance is C04); a "
-            "LimboWaitHeal listener that cancels in a third of the calls; most cases focus on one quantity so that "
-            "consecutive calls chain; everything derives from one splitmix64 state; a case is non-trivial when distinct "
-            "as an input term",
+            "units (whose bonus scales ModifyStance is C04); a LimboWaitHeal verdict that cancels in a third of the calls; "
+            "most cases focus on one quantity so that consecutive calls chain. "
+            "RE-ENTRANT LISTENERS (two cases in three): the harness subscribes ONE listener to each of the seven events "
+            "(HPChange, LimboWaitHeal, StanceChange, StanceBreak, StanceReset, EnergyChange, SPChange); it records the event, "
+            "records what the getters of the event's unit return at that moment (ESeen), pops the next script of the event's "
+            "queue and calls the REAL service again from inside the outer call's Emit (recording each nested return code, "
+            "ERet); 1-9 scripts per case spread over the seven queues (two thirds in the queues of the events the focused "
+            "quantity fires), 0-3 calls per script (mostly 0-2), five calls in six on the hot unit the top-level calls work on "
+            "and three in four on the quantity the event is about (so a listener re-triggers its own event, undoes or "
+            "anticipates the outer call's change: amounts 0, max, -max, max/2, 2*max; same key numbers 0-3); nesting as "
+            "deep as the queued scripts allow (every invocation consumes one), 1-12 top-level calls in "
+            "those cases; about 6 % of the generated cases hit the known StanceBreak / StanceReset finding (accepted by "
+            "monitor_case, rejected by monitor_full). Everything derives from one splitmix64 state; a case is non-trivial "
+            "when distinct as an input term",
     "trusted": [
         "TRANSLATED from the Go source on every run and proved equal to the model at binary64 (Gen/FormulasAttr.v, "
         "Gen/FormulasInfo.v; Proofs/FormulasAttrProofs.v; theorem C07_model_formulas_are_the_source): AddTarget "
@@ -31,7 +42,23 @@ CONFIG = {
         "s.Stats(data.Source) resp. data.Target), ModifySP (64-bit wrap, clamp to [0,5]), the initial 3 skill "
         "points",
         "still HAND-WRITTEN (correspondence only): the unknown-target error paths, emitHPChangeEvents (state "
-        "machine, one event per change), StanceBreak / StanceReset announcements, the getters",
+        "machine, one event per change), StanceBreak / StanceReset announcements, the getters, and the ORDER of "
+        "stores, emissions and re-reads inside every mutator (Model/Attr.v, section RE-ENTRANT LISTENERS: what is "
+        "already stored when Emit is called, which value is a Go local computed before the emission - newRatio in "
+        "emitHPChangeEvents, the clamped amount and the break / reset decision in SetStance - and which is re-read "
+        "after the listeners ran - the unit's life state, prev := attr.Stance)",
+        "listener behaviour is DATA: per event a queue of scripts of the service's own operations, run by the model "
+        "at the point of Emit with fuel for the nesting depth; the theorems quantify over all tables of scripts and "
+        "all fuel with the out-of-fuel outcome excluded by hypothesis, and C07_fuel_suffices proves it unreachable "
+        "for fuel >= the number of queued scripts (the correspondence uses one more). Not covered: listeners that "
+        "do something else than calling the attribute service (they cannot touch its state), more than one "
+        "listener per event (the scripts of several listeners of one event run one after the other: the same as "
+        "one listener running the concatenation, except that later listeners receive the event value computed "
+        "before the earlier ones ran - true of any synchronous event system and visible in the model as the event "
+        "followed by its reading), AddTarget from inside a listener (scripts are the eight mutators)",
+        "the harness restores the scripted modifier.Eval environment and LimboWaitHeal verdict of the outer call "
+        "when a nested call returns (no mutator reads stats after an emission today; checked by reading, and a "
+        "mutator that did would read the OUTER call's stats in the model)",
         "translator (harness/cmd/go2coq formulas.go, formulas_specs.go): trusted are the Go front end "
         "(go/packages, go/types, go/constant), the fixed whitelist and accessor tables (which Go field / method is "
         "which model accessor), the statement translation listed at the top of formulas.go, and that lit N n d "
@@ -48,22 +75,45 @@ CONFIG = {
                 "key.Reason is represented by small integers printed as decimal strings"],
     "assumptions": ["units are registered (AddTarget) with attributes in range: HP ratio <= 1 (non-positive becomes 1), "
                     "0 <= energy, 0 <= finite max energy, 0 <= stance <= finite max stance; AddTarget itself does not validate",
-                    "amounts, ratios, floors, energy regen and stance damage bonus are finite; max HP is finite and positive",
-                    "listeners do not call the attribute service from inside its events (calls are sequential)",
-                    "the chain property compares values with float64 == (a stored +0 may be reported as -0 and vice versa)"],
+                    "amounts, ratios, floors, energy regen and stance damage bonus are finite; max HP is finite and positive "
+                    "- for top-level calls and for every call in a listener script",
+                    "listeners MAY call the attribute service from inside its events (any nesting). KNOWN FINDING kept in "
+                    "the code (C07-reentrant-stance-break, theorem C07_reentrant_full_refuted): a StanceBreak / "
+                    "StanceReset listener that changes the stance of the same unit makes the announcing SetStance report a "
+                    "StanceChange with old == new and has one zero crossing announced twice; the full property text is "
+                    "proved for every history in which no listener reacts to StanceBreak / StanceReset "
+                    "(C07_reentrant_partial), whatever all other listeners do",
+                    "with re-entrant listeners 'the value before / after the call' is read as: the change events of a unit "
+                    "and quantity, in the order they reach the listeners, lead from the value before the history (or call) "
+                    "to the value after it, and the new value of an event is the stored value when the event reaches its "
+                    "listeners; the exactly-one-event-per-changed-quantity form holds for calls during which no listener "
+                    "script runs (C07_ranges_and_reports + C07_no_listeners_is_one_call_without_interference)",
+                    "the chain property compares values with float64 == (a stored +0 may be reported as -0 and vice versa)",
+                    "the unit's life state (Alive / Limbo / Dead) is not part of C07: after a re-entrant HPChange listener it "
+                    "is decided from the ratio computed before the listeners ran (modelled as it is, corpus cases "
+                    "reentrant_hp_listener_*.json)"],
     "manifest": {
         "level_text": "Translator tie (way 1): every clamp and update expression of attribute/add.go and attribute/modify.go is regenerated from the Go source on every run (go2coq FormulasAttr) and proved EQUAL to the model's expressions at binary64; "
                       "Kernel-checked theorems at the binary64 level (Flocq facts about primitive floats) over an "
                       "executable Gallina model of the attribute service: ranges as an invariant of all call sequences, "
                       "exactly-one-event-iff-changed with old/new = before/after for every call, event chains, break/reset "
-                      "announcements; tied to the Go code by exact (bit-level) correspondence of events, errors and getters "
-                      "on generated histories plus an independent monitor of the property on the implementation's output.",
+                      "announcements; RE-ENTRANT LISTENERS are part of the model (scripts per event, run at the point of Emit, "
+                      "any nesting): for all scripts and fuel the ranges hold in every state a listener sees, the change events "
+                      "of a unit and quantity lead from the value before to the value after with new = stored value at "
+                      "delivery, HP / energy / SP events always report changes; the full text incl. StanceChange and exact "
+                      "break / reset counts is proved when no listener reacts to StanceBreak / StanceReset and REFUTED (vm_compute "
+                      "witnesses replayed on the Go code, known finding C07-reentrant-stance-break) otherwise; "
+                      "tied to the Go code by exact (bit-level) correspondence of events, errors, getters after every call and "
+                      "getters at every event delivery on generated re-entrant histories plus an independent monitor of the "
+                      "property on the implementation's output (monitor_case = what is proved of today's code, monitor_full = "
+                      "the property text).",
         "level_note": "go2coq FormulasAttr translator + kernel-checked equalities generated = model; "
                       "Coq kernel; hand-written model Model/Attr.v of the repaired code (two fix: commits in "
                       "ModifyHPByRatio); stats of the target are per-call inputs.",
         "technique": "source-to-Coq translation of the formulas with equality proofs + "
-                     "Coq proof (invariant + per-call specification, induction over op lists) + model/implementation "
-                     "correspondence + runtime monitor",
+                     "Coq proof (invariant + per-call specification, induction over op lists; for re-entrant listeners a "
+                     "compositional segment invariant proved by induction on fuel and scripts, refutation by vm_compute) + "
+                     "model/implementation correspondence + runtime monitor",
         "design_ref": "DESIGN.md section 7, C07",
     },
 }
